@@ -50,7 +50,7 @@ def plan(tier):
     if tier == "thorough":
         return dict(runs=30000, wall_budget=1500, per_run_timeout=300, selftest=24, shrink_evals=300,
                     shrink_seconds=120)
-    return dict(runs=480, wall_budget=240, per_run_timeout=240, selftest=6, shrink_evals=120, shrink_seconds=45)
+    return dict(runs=1200, wall_budget=240, per_run_timeout=240, selftest=6, shrink_evals=120, shrink_seconds=45)
 
 
 class Instance:
@@ -243,6 +243,11 @@ class C14(World):
                 if not info["ok"]:
                     self.violate("C14", "I4-body", "dryrun-output", f"{op.id}: dry-run output is not an OFX request: {info['why']}")
             return
+        if op.ok is False and not conns:
+            # every argument the world passes is valid, so nothing but the network can make a request fail
+            self.violate("C14", "I2-count", "none-sent",
+                         f"{op.id}: {op.kind} ({op.mode}) raised {op.exc} without any network activity; "
+                         f"exactly one POST expected", kind=op.kind)
         n_prof = n_main = 0
         for c in conns:
             self.judged_conns += 1
